@@ -58,6 +58,7 @@ def namedConfig (name : String) : Except String (Table × List (List String × O
   | "default" => pure (SciVerif.C01.Gen.dflt, SciVerif.C01.Gen.dfltSteps)
   | "strcfg" => pure (SciVerif.C02.Gen.strcfg, SciVerif.C02.Gen.strcfgSteps)
   | "unarycfg" => pure (SciVerif.C02.Gen.unarycfg, SciVerif.C02.Gen.unarycfgSteps)
+  | "prefixcfg" => pure (SciVerif.C02.Gen.prefixcfg, SciVerif.C02.Gen.prefixcfgSteps)
   | _ => throw s!"unknown configuration {name}"
 
 /-- The operator dict `{n: default[n] for n in names}` (in this order): the rows of the regenerated
